@@ -68,6 +68,7 @@ forwarded (or receives bytes) later joined the tunnel that appeared meanwhile; a
 def attachedTs (ts : TunnelState) (late : Late) (att : Attach) : TunnelState :=
   match ts, late with
   | .none, .route m n _ => if att == .source then ts else .remote m n
+  | .none, .window m => if att == .source then ts else .bridge m false
   | _, _ => ts
 
 /-- The property when the tunnel state changes during the request: the acknowledgement is judged against the
@@ -85,6 +86,7 @@ def Outcome.obsDyn (o : Outcome) (ts : TunnelState) (late : Late) : Obs :=
     data := match o.attach, ts, late with
       | .target, .bridge _ served, _ => !served
       | .target, .none, .route _ _ _ => true
+      | .target, .none, .window _ => true
       | .forward _, _, _ => true
       | _, _, _ => false }
 
